@@ -288,6 +288,152 @@ fn frag_by_sizes(data: &[u8], sizes: &[usize]) -> Vec<Vec<u8>> {
     out
 }
 
+/// inner-future delay: answers `Pending` `n` times, then `Ready`
+struct PendN(usize);
+
+impl std::future::Future for PendN {
+    type Output = ();
+
+    fn poll(mut self: std::pin::Pin<&mut Self>, cx: &mut std::task::Context<'_>) -> std::task::Poll<()> {
+        if self.0 == 0 {
+            std::task::Poll::Ready(())
+        } else {
+            self.0 -= 1;
+            cx.waker().wake_by_ref();
+            std::task::Poll::Pending
+        }
+    }
+}
+
+#[derive(Default)]
+struct SinkLog {
+    buffered: Vec<u8>,
+    delivered: Vec<u8>,
+    flushes: usize,
+    shutdowns: usize,
+}
+
+/// buffering writer for the `sink` operation: `write` only stores, `flush`/`shutdown` deliver; every
+/// operation first pends as often as the delay offered by the sink call that polls it first
+struct DelayW {
+    log: std::rc::Rc<std::cell::RefCell<SinkLog>>,
+    delay: std::rc::Rc<std::cell::Cell<usize>>,
+}
+
+impl AsyncWrite for DelayW {
+    async fn write<T: IoBuf>(&mut self, buf: T) -> BufResult<usize, T> {
+        PendN(self.delay.get()).await;
+        let n = buf.as_init().len();
+        self.log.borrow_mut().buffered.extend_from_slice(buf.as_init());
+        BufResult(Ok(n), buf)
+    }
+
+    async fn flush(&mut self) -> std::io::Result<()> {
+        PendN(self.delay.get()).await;
+        let mut l = self.log.borrow_mut();
+        l.flushes += 1;
+        let b = std::mem::take(&mut l.buffered);
+        l.delivered.extend(b);
+        Ok(())
+    }
+
+    async fn shutdown(&mut self) -> std::io::Result<()> {
+        PendN(self.delay.get()).await;
+        let mut l = self.log.borrow_mut();
+        l.shutdowns += 1;
+        let b = std::mem::take(&mut l.buffered);
+        l.delivered.extend(b);
+        Ok(())
+    }
+}
+
+/// run a script of raw `Sink` calls (`r<d>` poll_ready, `s<hex>` start_send, `f<d>` poll_flush,
+/// `c<d>` poll_close) against the real `Framed`; monitors: a `Ready` flush/close has delivered
+/// everything accepted so far (and close has shut the writer down), bytes are never lost or reordered
+fn run_sink(spec: &FramerSpec, script: &[String], line: &str, ex: &mut Exec) -> String {
+    use futures_util::Sink;
+    use std::{pin::Pin, task::{Context, Poll}};
+    let log = std::rc::Rc::new(std::cell::RefCell::new(SinkLog::default()));
+    let delay = std::rc::Rc::new(std::cell::Cell::new(0usize));
+    let mut res = String::new();
+    let mut sent: Vec<u8> = vec![];
+    let mut fails: Vec<(&'static str, String)> = vec![];
+    let r = catch(|| {
+        with_framer!(spec, f, {
+            let w = DelayW { log: log.clone(), delay: delay.clone() };
+            let mut framed = Framed::new::<Bytes, Bytes>(BytesCodec::new(), f).with_writer(w);
+            let waker = futures_util::task::noop_waker();
+            let mut cx = Context::from_waker(&waker);
+            for call in script {
+                let (k, arg) = call.split_at(1);
+                let before_shutdowns = log.borrow().shutdowns;
+                let r = std::panic::catch_unwind(std::panic::AssertUnwindSafe(|| match k {
+                    "s" => {
+                        let p = unhex(arg);
+                        Pin::new(&mut framed).start_send(Bytes::from(p)).map(|_| Poll::Ready(()))
+                    }
+                    _ => {
+                        delay.set(arg.parse().unwrap());
+                        let r = match k {
+                            "r" => Pin::new(&mut framed).poll_ready(&mut cx),
+                            "f" => Pin::new(&mut framed).poll_flush(&mut cx),
+                            "c" => Pin::new(&mut framed).poll_close(&mut cx),
+                            _ => panic!("bad sink call {call}"),
+                        };
+                        match r {
+                            Poll::Ready(Ok(())) => Ok(Poll::Ready(())),
+                            Poll::Ready(Err(e)) => Err(e),
+                            Poll::Pending => Ok(Poll::Pending),
+                        }
+                    }
+                }));
+                match r {
+                    Err(_) => {
+                        res.push('X');
+                        break;
+                    }
+                    Ok(Err(_)) => {
+                        res.push('E');
+                        break;
+                    }
+                    Ok(Ok(Poll::Pending)) => res.push('P'),
+                    Ok(Ok(Poll::Ready(()))) => {
+                        res.push('R');
+                        if k == "s" {
+                            sent.extend(enclose_or_raw(spec, unhex(arg)));
+                        }
+                        let l = log.borrow();
+                        if (k == "f" || k == "c") && (l.delivered != sent || !l.buffered.is_empty()) {
+                            fails.push((
+                                "C13:sink-ready-not-delivered",
+                                format!("{line}: call #{} `{call}` answered Ready with delivered={} buffered={} of sent={} (flushes={} shutdowns={})",
+                                    res.len(), hex(&l.delivered), hex(&l.buffered), hex(&sent), l.flushes, l.shutdowns),
+                            ));
+                        }
+                        if k == "c" && l.shutdowns != before_shutdowns + 1 {
+                            fails.push(("C13:sink-close-no-shutdown", format!("{line}: call #{} `{call}` answered Ready, writer shutdowns {} -> {}", res.len(), before_shutdowns, l.shutdowns)));
+                        }
+                    }
+                }
+            }
+        })
+    });
+    if r.is_err() {
+        fails.push(("C13:sink-panic", format!("{line}: panic outside a sink call")));
+    }
+    let l = log.borrow();
+    let mut seen = l.delivered.clone();
+    seen.extend_from_slice(&l.buffered);
+    if !sent.starts_with(&seen) && !res.ends_with('X') {
+        fails.push(("C13:sink-bytes", format!("{line}: writer saw {} which is not a prefix of the accepted frames {}", hex(&seen), hex(&sent))));
+    }
+    for (sig, d) in fails {
+        ex.fail(sig, d);
+    }
+    ex.tag(format!("sink:{}:{}", res.chars().filter(|c| *c == 'P').count().min(3), if res.ends_with('X') { "panic" } else { "ok" }));
+    format!("{res} | {} {} {} {}", hex(&l.delivered), hex(&l.buffered), l.flushes, l.shutdowns)
+}
+
 /// encode the frames through the real `Sink` into a recording writer taking `wmax` bytes per call
 fn sink_encode(spec: &FramerSpec, frames: &[Vec<u8>], wmax: usize) -> Result<Vec<u8>, String> {
     catch(|| {
@@ -384,6 +530,10 @@ fn exec_line(line: &str, ex: &mut Exec) -> String {
             ex.tag(format!("stream:{}:{}", w[1].split(':').next().unwrap(), out.rsplit(' ').next().unwrap()));
             out
         }
+        "sink" => {
+            let spec = parse_framer(w[1]);
+            run_sink(&spec, &list_of(w[2]), line, ex)
+        }
         "cmsg" => cmsg::exec(&w[1..], line, ex),
         _ => panic!("bad op {line}"),
     }
@@ -445,10 +595,47 @@ fn generate(tier: &str, rng: &mut Rng) -> Vec<Case> {
     for i in 0..n {
         let mut lines = vec![];
         let (fs, spec) = gen_framer(rng);
-        match rng.below(10) {
+        match rng.below(11) {
             0 => {
                 let p = { let k = rng.below(40) as usize; rng.bytes(k) };
                 lines.push(format!("enclose {fs} {}", hex(&p)));
+            }
+            9 => {
+                // raw Sink calls over a buffering writer whose operations pend: mostly protocol-conforming
+                // (poll_ready until Ready before start_send), sometimes arbitrary
+                let mut calls: Vec<String> = vec![];
+                let conforming = rng.chance(4, 5);
+                let n = rng.range(1, 7);
+                for _ in 0..n {
+                    let d = *rng.pick(&[0usize, 0, 0, 1, 2, 3]);
+                    match rng.below(6) {
+                        0..=2 => {
+                            if conforming {
+                                for _ in 0..=d {
+                                    calls.push(format!("r{d}"));
+                                }
+                            } else if rng.chance(1, 2) {
+                                calls.push(format!("r{d}"));
+                            }
+                            let k = rng.below(6) as usize;
+                            let p = rng.bytes_from(k, b"abcxyz\x00\x01");
+                            calls.push(format!("s{}", hex(&p)));
+                        }
+                        3..=4 => {
+                            let reps = if conforming { 2 * d + 2 } else { rng.range(1, 3) as usize };
+                            for _ in 0..reps {
+                                calls.push(format!("f{d}"));
+                            }
+                        }
+                        _ => {
+                            let reps = if conforming { 2 * d + 2 } else { rng.range(1, 3) as usize };
+                            for _ in 0..reps {
+                                calls.push(format!("c{d}"));
+                            }
+                        }
+                    }
+                }
+                lines.push(format!("sink {fs} {}", calls.join(",")));
             }
             1..=2 => {
                 // extract on hostile / near-valid bytes
